@@ -524,6 +524,16 @@ func genEp(g *core.Gen) {
 		}
 		kase(g, cls, true, c.line(inp, nil))
 	}
+	// every position of the first mismatch with the v1 prefix (0..15), valid v2 traffic otherwise:
+	// the responder must treat the stream as v2 and complete the handshake
+	for k := 0; k < 16; k++ {
+		c := randEp(r, "r", pickMagic(r))
+		v1 := append(unhx(fmt.Sprintf("%08s", c.magic)), []byte("version\x00\x00\x00\x00\x00")...)
+		v1[0], v1[1], v1[2], v1[3] = v1[3], v1[2], v1[1], v1[0]
+		inp := append(append([]byte(nil), v1...), r.Bytes(48+r.Intn(40))...)
+		inp[k] ^= byte(1 + r.Intn(255))
+		kase(g, "ep-v1-mismatch-at-k", true, c.line(inp, nil))
+	}
 	// tampering with the handshake part of the input stream
 	for i := 0; i < g.N(6, 60); i++ {
 		s := mk(int(r.Pick(-1, 0, 3, 4095)), int(r.Pick(-1, 0, 3, 4095)), 1+r.Intn(3), 0)
